@@ -43,7 +43,9 @@ def np_array(system, rows, momentum=False, shape=None, spelling=None, dtype=nump
     d = len(system) + 1
     names = names_for(system, spelling or ("momentum" if momentum else "generic"))
     listed = list(names) if perm % 3 == 0 else (list(names)[::-1] if perm % 3 == 1 else list(names)[1:] + list(names)[:1])
-    dt = [(n, dtype) for n in listed] + ([("charge", numpy.int64)] if extra else [])
+    # dtype: one dtype for every column, or a list with one dtype per coordinate (in canonical order)
+    per = dict(zip(names, dtype)) if isinstance(dtype, (list, tuple)) else {n: dtype for n in names}
+    dt = [(n, per[n]) for n in listed] + ([("charge", numpy.int64)] if extra else [])
     arr = numpy.zeros(len(rows), dtype=dt)
     for j, n in enumerate(names):
         arr[n] = [r[j] for r in rows]
